@@ -9,7 +9,7 @@ from .. import mgmt
 PROP = "C04"
 W = dict(p_add=3, p_add_many=1, p_remove=2, p_remove_many=1, p_remove_filtered=1, p_update=1, p_update_many=0.5,
          p_update_filtered=0, g_add=7, g_add_many=5, g_remove=6, g_remove_many=4, g_remove_filtered=3, rbac=6,
-         clear=1, load=1.5, save=0.5, build=0.5, flags=0, query=4, probe=3, long_g=0.1)
+         clear=1, load=1.5, save=0.5, build=0.5, flags=0, query=4, probe=3, long_g=0.1, alias_remove=0.5)
 QUERY_OPS = set(range(50, 71))
 KNOWN_PREFIX = "C04/overlong-rules-share-a-link"
 
